@@ -239,9 +239,10 @@ func trunc(s string) string {
 }
 
 func run(r *core.Run) {
-	r.Rule = "literal codec: byte strings (random over all 256 values, boundary: every escaped byte, the \\x prefix, quotes, long) through the real printer and tokenizer vs the model; statements: Acra's own parser test tables (read from sqlparser/*_test.go), one template per clause/expression form × literal spellings × dialects, and text splices of printed sub-expressions into every expression position; a case is non-trivial when the statement parses; distinct by text"
+	r.Rule = "literal codec: byte strings (random over all 256 values, boundary: every escaped byte, the \\x prefix, quotes, long) through the real printer and tokenizer vs the model; statements: Acra's own parser test tables (read from sqlparser/*_test.go), one template per clause/expression form × literal spellings × dialects, and text splices of printed sub-expressions into every expression position; a case is non-trivial when the statement parses; distinct by text; expression fragment: every ordered pair of infix operators of the model's regenerated operator table (`a op1 b op2 c`, BETWEEN included), every prefix/postfix operator against every infix one and against each other, with column, literal and signed operands, in both dialects; random trees with random parenthesisation (0/20/50/90 % of the children wrapped) through the real printer, tokenizer and parser and the model's; variant spellings (upper case, <>, mod, &&, ||, white space); value substitution in parsed trees; token-level mutations as malformed stream"
 	runLiterals(r)
 	runIdents(r)
+	runExprs(r)
 	runStatements(r)
 }
 
